@@ -34,7 +34,7 @@ def entries():
     return _ENTRIES
 
 
-def match_known(prop, sig, line, detail):
+def match_known(prop, sig, line, detail, profile):
     for e in entries():
         if e.get("status") != "open":
             continue
@@ -44,7 +44,7 @@ def match_known(prop, sig, line, detail):
         if fn is None:
             continue
         try:
-            if fn(prop, sig, line, detail):
+            if fn(prop, sig, line, detail, profile):
                 return e["id"]
         except Exception:
             pass
